@@ -4,7 +4,7 @@
 (*   ok   : the step just taken satisfied the property's per-step clauses    *)
 (*   nf   : failing operations so far (progress bias for walks)              *)
 EXTENDS FsVars, Json
-CONSTANTS Devs, Depth, MaxFails
+CONSTANTS Devs, Depth, MaxFails, SampleOneIn
 VARIABLES st, hist, nf, ok
 IsFail(op, r) == FALSE
 Init == st = InitSt /\ hist = <<>> /\ nf = 0 /\ ok = TRUE
@@ -20,5 +20,7 @@ StepInv == ok
 Bound == Len(hist) < Depth
 ViewSt == <<st, ok>>
 EmitAll == PrintT(<<"B", ToJson(hist')>>)
+\* one transition in SampleOneIn, chosen by TLC's seeded random generator (large graphs, quick tier)
+EmitSample == RandomElement(1..SampleOneIn) = 1 => PrintT(<<"B", ToJson(hist')>>)
 EmitEnd == Len(hist') = Depth => PrintT(<<"B", ToJson(hist')>>)
 =============================================================================
